@@ -840,6 +840,17 @@ class RewriteRuleSet:
                             identity = ir.Node("", "Identity", [v])
                             new_nodes.append(identity)
                             new_outputs[i] = identity.outputs[0]
+                    if (
+                        not delta.new_nodes
+                        and len(new_nodes) == 1
+                        and len(delta.match.nodes) == 1
+                        and delta.match.nodes[0].op_type == "Identity"
+                        and delta.match.nodes[0].domain == ""
+                        and delta.match.nodes[0].inputs[0] is new_nodes[0].inputs[0]
+                    ):
+                        # The rewrite would replace Identity(v) by the routing Identity(v):
+                        # no progress, and the new node would be matched again for ever.
+                        continue
                     delta = dataclasses.replace(
                         delta, new_nodes=new_nodes, new_outputs=new_outputs
                     )
